@@ -763,6 +763,8 @@ def sub_case(c, file=None, txns=None):
     out = {'kind': c['kind'], 'file': c['file'] if file is None else file, 'txns': c['txns'] if txns is None else txns}
     if 'ds' in c:
         out['ds'] = c['ds']
+    if 'shadow_file' in c and file is None:
+        out['shadow_file'] = c['shadow_file']      # the twin file of the 'shadow' oracle belongs to the unshrunk file
     return out
 
 
